@@ -143,7 +143,7 @@ def parse_out(s):
 def run(ctx):
     rng = ctx.rng
     thorough = ctx.tier == 'thorough'
-    n = 6000 if thorough else 500
+    n = 6000 if thorough else 500 * ctx.scale
     lines, meta = [], []
     if ctx.replay:
         if not ctx.replay['case'].get('line', '').startswith('redirect '):
